@@ -18,6 +18,18 @@ CLAIMS = {
   "text": "Decides for all ~770 mutation sites of the package (item/attribute stores and deletes, augmented assignments, mutating container/array methods, numpy/torch in-place API, out=, setattr) that none writes through a reference that can only be a term's constructor field (45 fields computed from every Funsor subclass __init__), a term, an operand of an array kernel (op implementations, einsum backends) or a value already handed to a term; that constructor fields are stored only during construction; that callers pass fresh objects in positions a callee (transitively) mutates. A dropped .copy(), a write into x.data / x.inputs, an in-place clamp of a view of an operand, mutation after super().__init__ are reported at the write with the origin chain. Covers every function on every syntactic path, including torch/jax/pyro modules the suite never runs.",
   "note": "Library semantics (which numpy/torch calls allocate, which return views) are a trusted table; unknown origins (elements of locally built containers of containers, closure variables, dynamic callees) are reported as unresolved and never failed; a write that is borrowed on one branch and fresh on another is reported only when the borrowed origin is array-kind.",
  },
+ "C05": {
+  "design_ref": "DESIGN.md section 4, C05 (R05.1-R05.5)",
+  "technique": "static analysis: dataflow from constructor parameters into `bound` to derive binder fields, abstract interpretation (taint from the renaming map) of every _alpha_convert, CFG dominance of the mangling call in reflect, who-may-write on the name counter",
+  "text": "Decides the premises of capture-avoiding substitution by eager renaming: for each of the 10 binder-carrying term classes the fields that feed `bound` (derived, not listed) are recomputed from the renaming map at their position in _alpha_convert - explicitly for string binders, through the base substitution for Variable/container binders - and no free (fresh) string field is renamed; every term reflect constructs is passed through _alpha_mangle before being cached/returned; _alpha_mangle renames all of expr.bound (only filter: already carries the marker) to gensym names and returns the term unchanged only when the map is empty; substitute stops at closed terms and hands only fresh names to eager_subs; the gensym counter is written only by += 1 inside gensym before its read; the marker literal agrees at all 8 sites. NOT decided: values of renamed terms.",
+  "note": "Field kinds come from the constructors' isinstance assertions; unknown kinds are unresolved. The non-binder-string clause and the form of the unchanged-return guard were sharpened after seeded changes C05-independent-renames-free-input / C05-alpha-mangle-early-exit were examined.",
+ },
+ "C07": {
+  "design_ref": "DESIGN.md section 4, C07 (R07.1-R07.6)",
+  "technique": "static analysis: who-binds query for the intern tables, CFG dominance/reachability for the find-or-add protocol, shape analysis of the key comprehension, abstract interpretation of metaclass __call__ return values",
+  "text": "Decides the hash-consing protocol for the five intern tables (terms, three type caches, op instances): every binding is a fresh weakref.WeakValueDictionary(); lookup, miss test and insert use one definition of the key with no re-definition in between; the insert dominates every return of a newly built object and the returned object is the inserted one; make_hash_key covers all arguments (no filter/slice; id() only under a hashability test) and reflect keys, constructs and records _ast_values from the same args; ops are hashed after apply_defaults from the (args, kwargs) they are built from; _ast_values precedes the insert (ids stay alive); the alpha-mangled object is what is cached; type.__call__ on terms occurs only in reflect and all 12 metaclass __call__ overrides return super().__call__ results; __hash__/__copy__/__reduce__ of terms, ops and the copyreg hooks of domains go through the interning constructors and are not overridden. NOT decided: GC timing, third-party array pickling.",
+  "note": "Interning functions are anchored by qualified name (a vanished anchor is exit 2). Trusts WeakValueDictionary semantics.",
+ },
 }
 
 NOT_APPLICABLE = {
@@ -32,9 +44,7 @@ NOT_APPLICABLE = {
  "C01": "check not implemented yet in this snapshot (planned: R01.1-R01.4, DESIGN.md)",
  "C02": "check not implemented yet in this snapshot (planned: R02.1-R02.5)",
  "C03": "check not implemented yet in this snapshot (planned: R03.1-R03.4)",
- "C05": "check not implemented yet in this snapshot (planned: R05.1-R05.5)",
  "C06": "check not implemented yet in this snapshot (planned: R06.1-R06.4)",
- "C07": "check not implemented yet in this snapshot (planned: R07.1-R07.8)",
  "C08": "check not implemented yet in this snapshot (planned: R08.1-R08.4)",
  "C11": "check not implemented yet in this snapshot (planned: R11.1-R11.5)",
  "C16": "check not implemented yet in this snapshot (planned: R16.1-R16.5)",
